@@ -113,6 +113,13 @@ func main() {
 			os.Exit(2)
 		}
 		scanResets(p)
+	case "scanvisits":
+		p, err := eng.Load(eng.LoadOpts{})
+		if err != nil {
+			fmt.Println(err)
+			os.Exit(2)
+		}
+		scanVisits(p)
 	case "scansums": // exploratory: prefix-sum accumulators shared by several loops
 		p, err := eng.Load(eng.LoadOpts{})
 		if err != nil {
